@@ -48,7 +48,7 @@ def check(an: Analysis) -> None:
         ob.inst(init, c)
         loop = next((p for p in _anc(c) if isinstance(p, ast.For)), None)
         names = [t.id for t in loop.target.elts] if loop is not None and isinstance(loop.target, ast.Tuple) and all(isinstance(t, ast.Name) for t in loop.target.elts) else []
-        v = unwrap(c.args[2]) if len(c.args) == 3 else None
+        v = unwrap(Deps(prog, init).inline(c.args[2])) if len(c.args) == 3 else None
         ok = len(names) == 2 and is_name(c.args[0], "self") and is_name(c.args[1], names[0]) and isinstance(v, ast.Call) and isinstance(v.func, ast.Attribute) and v.func.attr == "validated" and is_name(v.func.value, names[1])
         if ok:
             a = unwrap(v.args[0]) if len(v.args) == 1 else None
@@ -59,16 +59,44 @@ def check(an: Analysis) -> None:
         ob.fail(init, next(n for n in init.own_nodes() if isinstance(n, (ast.Try, ast.With))), "State.__init__ can swallow a validation error: an instance with unvalidated / missing attributes would be yielded")
     vf = prog.fn("state.structure.StateAttribute.validated")
     vp = vf.param_names()[1]
-    for r in [r for r in vf.own_nodes() if isinstance(r, ast.Return)]:
-        ob.inst(vf, r)
-        v = unwrap(r.value)
-        ok = isinstance(v, ast.Call) and dotted(v.func) == "self.validator" and len(v.args) == 1
-        if ok:
-            a = unwrap(v.args[0])
-            ok = isinstance(a, ast.IfExp) and dotted(a.body) == "self.default" and is_name(a.orelse, vp) and isinstance(a.test, ast.Compare) and isinstance(a.test.ops[0], ast.Is) and is_name(a.test.left, vp) and "MISSING" in (dotted(a.test.comparators[0]) or "")
-            ok = ok or (isinstance(a, ast.IfExp) and is_name(a.body, vp) and dotted(a.orelse) == "self.default" and isinstance(a.test, ast.Compare) and isinstance(a.test.ops[0], ast.IsNot) and is_name(a.test.left, vp))
-        if not ok:
-            ob.fail(vf, r, "validated() does not return self.validator(default if value is MISSING else value): defaults would bypass validation or supplied values be replaced")
+    gv = an.cfg(vf)
+    dvf = Deps(prog, vf)
+    from ..kinds import Scenario, eval_expr
+
+    for missing in (True, False):
+
+        def env(e: ast.AST, missing=missing):
+            if isinstance(e, ast.Compare) and len(e.ops) == 1 and isinstance(e.ops[0], (ast.Is, ast.IsNot)):
+                ops = [e.left, e.comparators[0]]
+                if any(is_name(x, vp) for x in ops) and any("MISSING" in (dotted(x) or "") for x in ops):
+                    return missing if isinstance(e.ops[0], ast.Is) else (not missing)
+            if isinstance(e, ast.Call) and (dotted(e.func) or "").endswith(("is_missing", "not_missing")) and e.args and is_name(e.args[0], vp):
+                return missing if (dotted(e.func) or "").endswith("is_missing") else (not missing)
+            return NOVALUE
+
+        sc = Scenario(gv, dvf, env)
+        live = [n for n in gv.nodes if n.kind == "return" and n.id in sc.reach]
+        ob.inst(vf, None, f"value {'is' if missing else 'is not'} MISSING: {len(live)} return(s)")
+        if not live:
+            ob.fail(vf, None, f"validated() has no return when the value {'is' if missing else 'is not'} MISSING")
+        for r in live:
+            v = unwrap(r.ast.value)  # type: ignore[union-attr]
+            ok = isinstance(v, ast.Call) and dotted(v.func) == "self.validator" and len(v.args) == 1 and not v.keywords
+            arg = None
+            if ok:
+                arg = unwrap(v.args[0])
+                while isinstance(arg, ast.IfExp):
+                    t = eval_expr(arg.test, env)
+                    if t is NOVALUE:
+                        break
+                    arg = unwrap(arg.body if t else arg.orelse)
+                if isinstance(arg, ast.Name) and arg.id != vp:
+                    vals = sc.values_of(arg.id)
+                    if len(vals) == 1:
+                        arg = unwrap(vals[0])
+                ok = (dotted(arg) == "self.default") if missing else is_name(arg, vp)
+            if not ok:
+                ob.fail(vf, r.ast, "validated() does not return self.validator(default if value is MISSING else value): " + ("a default would bypass validation" if missing else "a supplied value would be replaced or stored unvalidated"))
 
     # ------------------------------------------------------------------ C05.2 / C05.3 / C05.4 faithful element mapping
     ob2 = an.ob("C05.2", "K9", "sequence / variadic tuple / set validators: the comprehension iterates the matched container once, without filter, element = element_validator(<loop variable>)", CONTAINER_VALIDATORS)
@@ -110,10 +138,16 @@ def check(an: Analysis) -> None:
             if sh.filtered:
                 tgt.fail(f, r, "elements are dropped by a filter in the comprehension")
             if is_fixed:
-                ok = isinstance(it, ast.Call) and is_name(it.func, "enumerate") and len(it.args) == 1 and _is_subject(f, it.args[0], vparam, want="star") and len(names) == 2
-                if ok:
-                    el = unwrap(sh.elt)
+                el = unwrap(sh.elt)
+                ok = False
+                if isinstance(it, ast.Call) and is_name(it.func, "enumerate") and len(it.args) == 1 and _is_subject(f, it.args[0], vparam, want="star") and len(names) == 2:
                     ok = isinstance(el, ast.Call) and isinstance(el.func, ast.Subscript) and is_name(el.func.value, "element_validators") and is_name(el.func.slice, names[0]) and len(el.args) == 1 and is_name(el.args[0], names[1])
+                elif isinstance(it, ast.Call) and is_name(it.func, "zip") and len(it.args) == 2 and len(names) == 2:
+                    a0, a1 = it.args
+                    if is_name(a0, "element_validators") and _is_subject(f, a1, vparam, want="star"):
+                        ok = isinstance(el, ast.Call) and is_name(el.func, names[0]) and len(el.args) == 1 and is_name(el.args[0], names[1])
+                    elif is_name(a1, "element_validators") and _is_subject(f, a0, vparam, want="star"):
+                        ok = isinstance(el, ast.Call) and is_name(el.func, names[1]) and len(el.args) == 1 and is_name(el.args[0], names[0])
                 if not ok:
                     tgt.fail(f, r, "element i of a fixed tuple does not go through validator i over all matched elements")
                 # arity guard
@@ -154,7 +188,7 @@ def check(an: Analysis) -> None:
     rets = [n for n in gu.nodes if n.kind == "return"]
     for r in rets:
         ob.inst(uf, r.ast)
-        v = unwrap(r.ast.value)  # type: ignore[union-attr]
+        v = unwrap(Deps(prog, uf).inline(r.ast.value))  # type: ignore[union-attr]
         loop = next((p for p in _anc(r.ast) if isinstance(p, ast.For)), None)
         ok = loop is not None and is_name(loop.iter, "validators") and isinstance(loop.target, ast.Name) and isinstance(v, ast.Call) and is_name(v.func, loop.target.id) and len(v.args) == 1 and is_name(v.args[0], uf.param_names()[0])
         if not ok or r.meta.get("handler") is not None:
